@@ -1111,7 +1111,7 @@ def c(ctx):
     for w in stray:
         ctx.ob("the size exponent changes only inside the size-reduction loop", False, fi, w)
     if not stray:
-        ctx.ob("the size exponent changes only inside the size-reduction loop", True, fi, loop, construct="while %s" % stmt_text(loop.test))
+        ctx.ob("the size exponent changes only inside the size-reduction loop", True, fi, loop, construct="size-reduction loop of BlockwiseRequest._run")
     tn = test_nid(cfg, loop.test)
     ct = canon(X, loop.test, tn)
     want_test = frozenset({frozenset({("lt", Poly.atom(r.resp_szx) - Poly.atom(r.szx))})})
@@ -1123,7 +1123,7 @@ def c(ctx):
            detail="normal form %s" % (sorted(map(_show, got_test)) if got_test else None))
     ctx.ob("size reduction happens after the cursor advance and before the next block is cut",
            not (set(adv_nodes) & cfg.reach({tn}, avoid={r.send_nid})) and tn not in cfg.reach(matchp, avoid=set(adv_nodes)), fi, loop.test,
-           construct="position of while %s" % stmt_text(loop.test))
+           construct="position of the size-reduction loop in BlockwiseRequest._run")
     f_dec, f_inv = [], []
     for s in range(1, 7):
         env = _interp(ctx, loop.body, {r.cursor: Poly.atom("CUR"), r.szx: Poly.const(s)}, "size-reduction loop")
@@ -1134,9 +1134,9 @@ def c(ctx):
         if c2 * Poly.const(2 ** (int(s2) + 4)) != Poly.atom("CUR") * Poly.const(2 ** (s + 4)):
             f_inv.append("szx=%d: (cursor, szx) -> (%r, %d)" % (s, c2, s2))
     ctx.ob("every pass of the size-reduction loop lowers the exponent (it never grows; the loop terminates)", not f_dec, fi, loop, detail="; ".join(f_dec[:4]) or None,
-           construct="exponent step of while %s" % stmt_text(loop.test))
+           construct="exponent step of the size-reduction loop in BlockwiseRequest._run")
     ctx.ob("every pass of the size-reduction loop keeps the byte offset cursor * 2^(szx+4) (regular exponents)", not f_inv and not f_dec, fi, loop, detail="; ".join(f_inv[:4]) or None,
-           construct="cursor step of while %s" % stmt_text(loop.test))
+           construct="cursor step of the size-reduction loop in BlockwiseRequest._run")
     # c6: final block
     finals = pseudo_asserting(X, N, cfg, lambda a: r.final in a)
     ctx.floor("branches for 'the block just sent was the last one'", len(finals), 1)
@@ -1153,9 +1153,9 @@ def c(ctx):
         notcont = pseudo_asserting(X, N, cfg, lambda a: lit in a)
     for fp in sorted(finals):
         ctx.ob("after the final block the transfer only completes if the response's Block1 has no more-flag", cfg.must_pass(fp, nomore), fi, cfg.nodes[fp].ast,
-               construct="final block: %s" % stmt_text(cfg.nodes[fp].ast))
+               construct="final-block arm of the Block1 loop [more]")
         ctx.ob("after the final block the transfer only completes if the response code is not 2.31 Continue", bool(notcont) and cfg.must_pass(fp, notcont), fi, cfg.nodes[fp].ast,
-               construct="final block (code): %s" % stmt_text(cfg.nodes[fp].ast))
+               construct="final-block arm of the Block1 loop [code]")
 
 
 @R.clause("C05.f", "size reduction away from the BERT exponent keeps the byte offset (block numbers count 1024-byte units for szx 7 and for szx 6)")
@@ -1170,7 +1170,7 @@ def f(ctx):
     after = c2 * Poly.const(2 ** unit_exp(int(s2))) if valid else None
     ctx.ob("a pass of the size-reduction loop starting at szx 7 keeps the byte offset cursor * 1024", valid and after == Poly.atom("CUR") * Poly.const(1024), fi, loop,
            detail="(cursor, szx) = (CUR, 7) -> (%r, %r): byte offset %r instead of 1024*CUR" % (c2, env[r.szx], after),
-           construct="BERT step of while %s" % stmt_text(loop.test))
+           construct="BERT step of the size-reduction loop in BlockwiseRequest._run")
 
 
 # ===========================================================================
@@ -1398,8 +1398,8 @@ def e(ctx):
                     continue
                 covers_all = any(x in ("Exception", "BaseException") for x in types)
                 hn = [i for i in ocfg.locate(h) if ocfg.nodes[i].kind == "handler"]
-                ctx.need(hn and h.name, "_run_outer: handler does not bind the exception")
-                setx = {ocfg.loc1(n) for n, _ in find("%s.set_exception(%s)" % (fut, h.name), h)}
+                ctx.need(hn, "_run_outer: handler has no CFG node")
+                setx = {ocfg.loc1(n) for n, _ in find("%s.set_exception(%s)" % (fut, h.name), h)} if h.name else set()
                 donep = set()
                 for pz in pseudo_nodes(ocfg):
                     if match("%s.done()" % fut, pz.ast) is not None and pz.kind == "T" and any(contains(s, pz.ast) for s in h.body):
@@ -1414,3 +1414,47 @@ def e(ctx):
                     seen_exc = True
                     break
             ctx.ob("every Exception escaping _run is caught in _run_outer", seen_exc, oi, t, construct="try around %s" % stmt_text(rc))
+
+
+# ---------------------------------------------------------------------------
+# seeded faults (sensitivity self-test)
+F_MSG = "aiocoap/message.py"
+F_OPT = "aiocoap/optiontypes.py"
+F_PRO = "aiocoap/protocol.py"
+
+R.seed("C05.a", F_MSG, "more = True if end < len(self.payload) else False", "more = True if end <= len(self.payload) else False", "more flag on the final block")
+R.seed("C05.a", F_MSG, "size = 2 ** (size_exp + 4)", "size = 2 ** (size_exp + 3)", "half-size blocks")
+R.seed("C05.a", F_MSG, "            start = number * size\n", "            start = (number + 1) * size\n", "offset off by one block")
+R.seed("C05.a", F_MSG, "if start >= len(self.payload):", "if start > len(self.payload):", "empty block past the end instead of an error")
+R.seed("C05.a", F_MSG, "end = start + size if start + size < len(self.payload) else len(self.payload)", "end = start + size if start + size > len(self.payload) else len(self.payload)", "max instead of min")
+R.seed("C05.a", F_MSG, "blockopt = (number, more, size_exp)", "blockopt = (number, more, 6)", "descriptor does not carry the exponent used")
+R.seed("C05.a", F_MSG, "            start = number * 1024\n", "            start = number * size_exp\n", "BERT offset unit")
+R.seed("C05.a", F_MSG, "return self.copy(payload=payload, mid=None, block1=blockopt)", "return self.copy(payload=payload, mid=None, block2=blockopt)", "request block described in Block2")
+R.seed("C05.b", F_OPT, "return 2 ** (min(self.size_exponent, 6) + 4)", "return 2 ** (self.size_exponent + 4)", "BERT size 2048")
+R.seed("C05.b", F_OPT, "return payloadsize == self.size", "return payloadsize <= self.size", "short non-final block accepted")
+R.seed("C05.b", F_OPT, "return payloadsize <= self.size", "return payloadsize < self.size", "full final block rejected")
+R.seed("C05.b", F_OPT, "min(self.size_exponent, 6) - maximum_exponent", "self.size_exponent - maximum_exponent", "reduction from BERT doubles the offset")
+R.seed("C05.b", F_OPT, "return type(self)(increasednumber, self.more, maximum_exponent)", "return type(self)(increasednumber, self.more, self.size_exponent)", "exponent not reduced")
+R.seed("C05.b", F_OPT, "if maximum_exponent >= self.size_exponent:", "if maximum_exponent >= 0:", "never reduces")
+R.seed("C05.b", F_OPT, "return self.block_number * self.size", "return (self.block_number + 1) * self.size")
+R.seed("C05.c", F_PRO, "                block_cursor *= 2\n", "                pass\n", "cursor not rescaled on size reduction")
+R.seed("C05.c", F_PRO, "                size_exp -= 1\n", "                size_exp += 1\n", "exponent grows")
+R.seed("C05.c", F_PRO, "                block_cursor += 1\n", "                block_cursor += 2\n", "skips a block")
+R.seed("C05.c", F_PRO, '                raise error.UnexpectedBlock1Option("Block number mismatch")', '                log.warning("Block number mismatch")', "mismatch tolerated")
+R.seed("C05.c", F_PRO, "if block1.block_number != current_block1.opt.block1.block_number:", "if block1.block_number > current_block1.opt.block1.block_number:", "only larger numbers rejected")
+R.seed("C05.c", F_PRO, "                if block1.more or blockresponse.code == CONTINUE:", "                if blockresponse.code == CONTINUE:", "more flag on the final acknowledgement accepted")
+R.seed("C05.c", F_PRO, "                if block1.more or blockresponse.code == CONTINUE:", "                if block1.more:", "2.31 on the final block accepted")
+R.seed("C05.c", F_PRO, "while block1.size_exponent < size_exp:", "while block1.size_exponent <= size_exp:", "reduces below what the server asked for")
+R.seed("C05.c", F_PRO, "block_cursor += len(current_block1.payload) // 1024", "block_cursor += 1", "BERT message of several KiB counted as one block")
+R.seed("C05.d", F_MSG, "        if next_block.opt.etag != self.opt.etag:\n            raise error.ResourceChanged()\n", "", "ETag guard deleted: mixed body")
+R.seed("C05.d", F_MSG, "if block2.start != len(self.payload):", "if block2.start > len(self.payload):", "overlapping block appended twice")
+R.seed("C05.d", F_MSG, "        if not block2.is_valid_for_payload_size(len(next_block.payload)):\n            raise error.UnexpectedBlock2(\"Payload size does not match Block2\")\n", "", "short block accepted")
+R.seed("C05.d", F_MSG, "            raise error.ResourceChanged()", "            return", "changed representation silently skipped")
+R.seed("C05.d", F_MSG, "next_after_received = len(response.payload) // response.opt.block2.size", "next_after_received = len(response.payload) // response.opt.block2.size + 1", "asks for the block after next")
+R.seed("C05.d", F_MSG, "next_after_received, False, response.opt.block2.size_exponent", "next_after_received, False, 6", "exponent grows back to 6")
+R.seed("C05.e", F_PRO, "                log.error(\"Error assembling blockwise response, passing on error %r\", e)\n                raise\n", "                log.error(\"Error assembling blockwise response, passing on error %r\", e)\n", "assembly error swallowed")
+R.seed("C05.e", F_PRO, "            raise error.UnexpectedBlock2()\n", "            pass\n", "transfer starting in the middle accepted")
+R.seed("C05.e", F_PRO, "            if block2.more is False:\n                return assembled_response", "            if block2.more is not False:\n                return assembled_response", "truncated body returned")
+R.seed("C05.e", F_PRO, "                logged = True\n                response.set_exception(e)\n", "                logged = True\n", "error never reaches the caller")
+R.seed("C05.e", F_PRO, "        except Exception as e:\n            logged = False", "        except error.Error as e:\n            logged = False", "non-aiocoap exceptions lost")
+R.seed("C05.f", F_PRO, "                block_cursor *= 2\n", "                block_cursor *= 4\n", "masked while the BERT step is refuted on the analysed tree")
